@@ -12,11 +12,14 @@ import (
 	"encoding/json"
 	"flag"
 	"fmt"
+	"math"
 	"os"
 	"reflect"
 	"runtime"
 	"runtime/debug"
+	"sort"
 	"strings"
+	"sync"
 	"syscall"
 	"unsafe"
 
@@ -36,6 +39,7 @@ var (
 	outp  = flag.String("out", "/dev/stdout", "")
 	tier  = flag.String("tier", "quick", "")
 	limit = flag.Uint("limit", 0, "set option.LimitBufferSize (0 = leave the default)")
+	maxLen = flag.Int("maxlen", 200, "longest history")
 )
 
 type failure struct {
@@ -92,6 +96,17 @@ func sizeClass(n int) string {
 
 // ------------------------------------------------------------------ values of chosen output size
 
+type NanRec struct {
+	S string   `json:"s"`
+	F float64  `json:"f"`
+	P *NanRec  `json:"p"`
+	L []NanRec `json:"l"`
+}
+
+func nanRec() *NanRec {
+	return &NanRec{S: "outer", F: 1, P: &NanRec{S: "inner", F: math.NaN()}, L: []NanRec{{S: "l", F: 2}}}
+}
+
 type Rec struct {
 	A int               `json:"a"`
 	S string            `json:"s"`
@@ -146,7 +161,7 @@ type kept struct {
 
 func runHistory(sd uint64, idx int) {
 	r := rng.New(sd)
-	length := 1 + r.Intn(200)
+	length := 1 + r.Intn(*maxLen)
 	if r.Chance(1, 3) {
 		length = 1 + r.Intn(12)
 	}
@@ -294,7 +309,23 @@ func runHistory(sd uint64, idx int) {
 		if len(keep) > 60 {
 			keep = keep[len(keep)-60:]
 		}
+		// bound the bytes re-compared after every call (outputs reach 2 x LimitBufferSize)
+		tot := 0
+		for j := len(keep) - 1; j >= 0; j-- {
+			tot += len(keep[j].snap) + len(keep[j].sstr)
+			if tot > 4<<20 && j < len(keep)-3 {
+				keep = keep[j+1:]
+				break
+			}
+		}
 	}
+}
+
+func min(a, b int) int {
+	if a < b {
+		return a
+	}
+	return b
 }
 
 func firstDiff(a, b []byte) int {
@@ -326,6 +357,7 @@ func runInto() {
 		[]int{}, []int{1, 2, 3}, []string{"a", "b"}, map[string]int{"k": 1}, map[string]interface{}{}, []byte("binary data!"), []byte{},
 		json.Number("12345.678e9"), json.RawMessage(`{"raw":[1,2]}`), &Rec{A: 7, S: "s", L: []int{1}, M: map[string]string{"a": "b"}, B: []byte("xyz"), H: "<>"},
 		[]interface{}{1, "a", nil, true, 2.5, []interface{}{}}, struct{}{}, [3]bool{true, false, true}, (*int)(nil),
+		&Rec{A: 1, S: "nan inside", P: &Rec{M: map[string]string{"k": "v"}, P: &Rec{S: "deep"}}}, nanRec(), []interface{}{"x", math.NaN()}, map[string]interface{}{"a": []float64{1, math.Inf(1)}},
 		struct {
 			A int8
 			B uint16
@@ -384,6 +416,10 @@ func runInto() {
 						continue
 					}
 					if e2 != nil {
+						// regression (fixed e30143c): after a failed encode the caller's slice header must still be sane
+						if len(buf) > cap(buf) || len(buf) < 0 || !bytes.HasPrefix(buf[:min(len(buf), pre)], []byte("pqrs"[:min(len(buf), pre)])) {
+							fail("corrupt-header", fmt.Sprintf("after an EncodeInto error len(buf)=%d cap(buf)=%d: %s", len(buf), cap(buf), desc), nil, *seed, c)
+						}
 						continue
 					}
 					want := append([]byte("pqrs"[:pre]), ref...)
@@ -414,6 +450,19 @@ type Dst struct {
 	R json.RawMessage   `json:"r"`
 	N json.Number       `json:"n"`
 	B []byte            `json:"b"`
+}
+
+func fieldDump(d Dst) map[string]string {
+	m := map[string]string{}
+	v := reflect.ValueOf(d)
+	for i := 0; i < v.NumField(); i++ {
+		b, _ := json.Marshal(v.Field(i).Interface())
+		if v.Type().Field(i).Name == "N" {
+			b = []byte(string(d.N))
+		}
+		m[v.Type().Field(i).Name] = string(b)
+	}
+	return m
 }
 
 func runAlias() {
@@ -485,10 +534,18 @@ func runAlias() {
 			d.CopyString()
 			var dst Dst
 			if d.Decode(&dst) == nil {
-				before := dump(dst)
+				before := fieldDump(dst)
 				overwrite(in)
-				if dump(dst) != before {
-					fail("input-aliased", "Decoder with CopyString: decoded strings changed when the input memory was overwritten", nil, *seed, i)
+				after := fieldDump(dst)
+				var changed []string
+				for k, v := range before {
+					if after[k] != v {
+						changed = append(changed, k)
+					}
+				}
+				sort.Strings(changed)
+				if len(changed) > 0 {
+					fail("input-aliased", "Decoder with CopyString: fields ["+strings.Join(changed, ",")+"] changed when the input memory was overwritten", nil, *seed, i)
 				}
 			}
 			runtime.KeepAlive(in)
@@ -515,6 +572,96 @@ func runAlias() {
 	rep.Nontrivial = *n
 }
 
+// ------------------------------------------------------------------ concurrent stress: results must equal their sequential reference
+
+func runRace() {
+	runtime.GOMAXPROCS(4)
+	r := rng.New(*seed)
+	type job struct {
+		v    interface{}
+		desc string
+		ref  []byte
+		nd   *ast.Node
+	}
+	var jobs []job
+	for i := 0; i < 48; i++ {
+		v, desc := mkValue(r)
+		ref, err := sonic.Marshal(v)
+		if err != nil || len(ref) > 1<<16 {
+			continue
+		}
+		nd := ast.NewRaw(string(ref))
+		if nd.LoadAll() != nil {
+			continue
+		}
+		aref, err := nd.MarshalJSON()
+		if err != nil {
+			continue
+		}
+		_ = aref
+		jobs = append(jobs, job{v, desc, ref, &nd})
+	}
+	var bad int64
+	var mu sync.Mutex
+	var wg sync.WaitGroup
+	for g := 0; g < 8; g++ {
+		wg.Add(1)
+		go func(g int) {
+			defer wg.Done()
+			rr := rng.New(*seed + uint64(g)*7919)
+			var held [][2][]byte
+			for it := 0; it < *n; it++ {
+				j := jobs[rr.Intn(len(jobs))]
+				var out []byte
+				var err error
+				op := "sonic.Marshal"
+				if rr.Bool() {
+					out, err = sonic.Marshal(j.v)
+				} else {
+					op = "ast.Node.MarshalJSON(loaded)"
+					n2 := ast.NewRaw(string(j.ref))
+					if n2.LoadAll() == nil {
+						out, err = n2.MarshalJSON()
+					}
+				}
+				if err != nil || out == nil {
+					continue
+				}
+				if op == "sonic.Marshal" && !bytes.Equal(out, j.ref) {
+					mu.Lock()
+					bad++
+					fail("concurrent-corruption", fmt.Sprintf("%s of %s returned bytes that differ from the sequential reference at %d (another goroutine wrote into the buffer)", op, j.desc, firstDiff(out, j.ref)), nil, *seed, it)
+					mu.Unlock()
+				}
+				held = append(held, [2][]byte{out, append([]byte{}, out...)})
+				if len(held) > 16 {
+					held = held[1:]
+				}
+				for _, h := range held {
+					if !bytes.Equal(h[0], h[1]) {
+						mu.Lock()
+						bad++
+						fail("result-changed", op+": a result held by one goroutine was modified by calls of another goroutine", nil, *seed, it)
+						mu.Unlock()
+						held = nil
+						break
+					}
+				}
+				// valid JSON at all times (a torn copy is usually not)
+				if !json.Valid(out) {
+					mu.Lock()
+					fail("concurrent-corruption", op+" of "+j.desc+" returned invalid JSON under concurrency", nil, *seed, it)
+					mu.Unlock()
+				}
+			}
+		}(g)
+	}
+	wg.Wait()
+	rep.Evaluations = 8 * *n
+	rep.Nontrivial = len(jobs)
+	rep.Calls = 8 * *n
+}
+
 func main() {
 	flag.Parse()
 	if *limit != 0 {
@@ -527,8 +674,8 @@ func main() {
 		for i := 0; i < *n; i++ {
 			rep.Evaluations++
 			runHistory(*seed*1000003+uint64(i), i)
-			if i%20 == 19 {
-				runtime.GC() // empties the pools: histories also start from a cold state
+			if i%20 == 19 || option.LimitBufferSize > 1<<16 {
+				runtime.GC() // empties the pools: histories also start from a cold state (and bounds the heap when outputs are MBs)
 			}
 		}
 		rep.Nontrivial = *n
@@ -536,6 +683,8 @@ func main() {
 		runInto()
 	case "alias":
 		runAlias()
+	case "race":
+		runRace()
 	default:
 		fmt.Fprintln(os.Stderr, "unknown mode")
 		os.Exit(2)
